@@ -7,4 +7,5 @@ let lookup (p : string) : Model.sexp -> Model.sexp =
   | "c17" -> Model.run_c17
   | "c18" -> Model.run_c18
   | "c01" -> Model.run_c01
+  | "c06" -> Model.run_c06
   | _ -> failwith ("unknown property " ^ p)
